@@ -178,8 +178,43 @@ func c20(c *Ctx) {
 			add(w, reg.S8H, "virtual")
 		}
 	}
+	// binding lookups: Allocation.LookupRegister of a virtual register of every width allocated to every
+	// physical ID of its family: the table entry with exactly that ID and byte mask, or nothing
+	var lrows []string
+	lbase := len(o.Plan.Cases)
+	seenID := map[reg.ID]bool{}
+	for _, e := range theRegs {
+		if e.R.Kind() == reg.KindPseudo || seenID[e.R.ID()] {
+			continue
+		}
+		seenID[e.R.ID()] = true
+		var vs []reg.Register
+		switch e.R.Kind() {
+		case reg.KindGP:
+			vs = []reg.Register{coll.GP8L(), coll.GP8H(), coll.GP16(), coll.GP32(), coll.GP64()}
+		case reg.KindVector:
+			vs = []reg.Register{coll.XMM(), coll.YMM(), coll.ZMM()}
+		case reg.KindOpmask:
+			vs = []reg.Register{coll.K()}
+		}
+		for _, v := range vs {
+			a := reg.NewEmptyAllocation()
+			a[v.ID()] = e.R.ID()
+			out := a.LookupRegister(v)
+			oc := "None"
+			outs := "nothing"
+			if out != nil {
+				oc = "(Some " + cReg(out) + ")"
+				outs = out.Asm()
+			}
+			lrows = append(lrows, fmt.Sprintf("(%d, %d, %s)", uint64(e.R.ID()), uint64(v.Mask()), oc))
+			o.AddCase(Case{Key: "regs:binding-lookup", Desc: fmt.Sprintf("virtual register with mask %#x allocated to %s (id %d) binds to %s", v.Mask(), e.R.Asm(), e.R.ID(), outs), Input: map[string]any{"physical": e.R.Asm(), "mask": v.Mask()}, Nontrivial: true})
+		}
+	}
 	var b strings.Builder
 	b.WriteString(progHeader + "From Avo Require Import Model.RegSpec Props.C20.\n")
+	fmt.Fprintf(&b, "Definition lookups : list (N * N * option reg) := %s.\n", cListNL(lrows))
+	fmt.Fprintf(&b, "Definition R_lookup_violation := Eval vm_compute in List.map (N.add %d) (idx_where (fun c : N * N * option reg => negb (option_eqb reg_eqb (option_map reg_of_preg (lookup_id regs (fst (fst c)) (snd (fst c)))) (snd c))) lookups).\nPrint R_lookup_violation.\n", lbase)
 	b.WriteString("Definition R_bad_entries := Eval vm_compute in regfile_bad regs.\nPrint R_bad_entries.\n")
 	b.WriteString("Definition R_complete := Eval vm_compute in complete_ok regs.\nPrint R_complete.\n")
 	fmt.Fprintf(&b, "Definition convs : list conv_case := %s.\n", cListNL(rows))
@@ -196,6 +231,7 @@ func c20(c *Ctx) {
 	o.ExpectEmpty("Regs.v", "R_bad_entries", "violation", "a register's name/number/width/byte mask/flags do not denote the hardware register (table row index)")
 	o.ExpectTrue("Regs.v", "R_complete", "violation", "the set of views is not exactly the hardware's (missing or invented view, duplicate identity)")
 	o.ExpectEmpty("Regs.v", "R_conv_mismatch", "mismatch", "model reg_as vs As8L..As64/AsX..AsZ on physical and virtual registers")
+	o.ExpectEmpty("Regs.v", "R_lookup_violation", "violation", "binding a virtual register to its allocated physical ID does not give the table entry with exactly that ID and byte mask (a view that does not exist was manufactured, or the width changed)")
 	o.ExpectEmpty("Regs.v", "R_conv_violation", "violation", "a view conversion changed the register identity, did not yield the requested width, or manufactured a view")
 	o.Plan.Rule = "exhaustive: all physical registers of all families (dumped at run time and cross-checked against a go/ast reading of reg/x86.go) x all width views; 40 virtual registers x all conversions incl. chains; non-trivial = the requested view differs from the current one; distinct by (register, target view)"
 	o.Plan.Stats["physical_registers"] = len(theRegs)
